@@ -75,7 +75,12 @@ CONSTANTS
     FormatSeq,      \* sequence of format classes usable in Render
     MaxOps          \* bound on the length of a history (Next only)
 
-Kinds == {"int", "num"}
+Kinds == {"int", "num"}            \* what a stored series is: int-only, or ints and floats
+(* what a Put / Store may bring: "twin" = values that are EQUAL but differ in type or in the sign of  *)
+(* zero (0.0 next to -0.0; 1 next to 1.0 and True; 2 next to 2.0): each cell is its own stored value  *)
+(* in the requested format, never the text of an equal one.  Stored, such a series is "num".          *)
+PutKinds == {"int", "num", "twin"}
+StoredKind(kind) == IF kind = "twin" THEN "num" ELSE kind
 IntOnlyFormats == {"d"}         \* '%d' is only meaningful on int-only series
 
 ----------------------------------------------------------------------------
@@ -151,12 +156,12 @@ JoinKind(a, b) == IF a = "int" /\ b = "int" THEN "int" ELSE "num"
 PutOp(H, n, len, kind) ==
     [m \in DOMAIN H \cup {n} |->
         IF m # n THEN H[m]
-        ELSE IF n \in DOMAIN H THEN [len |-> len, kind |-> JoinKind(H[n].kind, kind)]
-        ELSE [len |-> len, kind |-> IF len = 0 THEN "int" ELSE kind]]     \* no value: vacuously int-only
+        ELSE IF n \in DOMAIN H THEN [len |-> len, kind |-> JoinKind(H[n].kind, StoredKind(kind))]
+        ELSE [len |-> len, kind |-> IF len = 0 THEN "int" ELSE StoredKind(kind)]]     \* no value: vacuously int-only
 
 StoreOp(H, n, len, kind) ==
     [m \in DOMAIN H \cup {n} |->
-        IF m # n THEN H[m] ELSE [len |-> len, kind |-> IF len = 0 THEN "int" ELSE kind]]
+        IF m # n THEN H[m] ELSE [len |-> len, kind |-> IF len = 0 THEN "int" ELSE StoredKind(kind)]]
 
 DeleteOp(H, n) == [m \in DOMAIN H \ {n} |-> H[m]]
 
@@ -308,7 +313,7 @@ Render(fmt) ==
     /\ UNCHANGED axis
 
 Next == /\ Len(hist) < MaxOps
-        /\ \/ \E n \in Names, len \in 0..MaxLen, kind \in Kinds : Put(n, len, kind) \/ Store(n, len, kind)
+        /\ \/ \E n \in Names, len \in 0..MaxLen, kind \in PutKinds : Put(n, len, kind) \/ Store(n, len, kind)
            \/ \E n \in Names : Delete(n)
            \/ List
            \/ \E n \in Names, sp \in BOOLEAN : Condition(n, sp)
